@@ -31,7 +31,7 @@ def run(out, info, tier, seed):
     out.assumptions = ['simulators are an oracle: any reply sequence (event list); delays compared have equal shape (convex group scenarios)']
     sched_check.sched_property(out, info, tier, seed, 'C01', KINDS, monitors.P_C01, gen_opts=dict(groups=True),
                                case_gen=lambda rng, k: gen.gen_parallel_case(rng, clean=False) if k % 5 == 4 else gen.gen_nested_case(rng) if k % 5 == 2 else gen.gen_case(rng, groups=True),
-                               ncases=(110, 1500), nontrivial=nontrivial, features=features,
+                               ncases=(220, 2000), nontrivial=nontrivial, features=features,
                                extra_obligations=[('Sched.Inv (invariant preserved by every event)', 'Sched/Inv'),
                                                   ('Sched.Main (lifting to runs from the initial state)', 'Sched/Main')])
     out.coverage['nontrivial_rule'] = 'at some quiescent point at least two simulators were in flight (a consumer could have been stepped too early)'
